@@ -511,7 +511,7 @@ Print Assumptions c17_src_declines.
    Round 5 — std::path at the level of components (C17/PathModel.v: Path::components on unix, Path::parent = the path
    without its final component; compared with the real std::path on every produced path by the correspondence run).
    What the file-system sinks with a `.parent()` (create_dir_all) and the file creation receive. *)
-From RM Require Import C17.PathModel C17.PathProofs C17.IdModel C17.IdProofs.
+From RM Require Import C17.PathModel C17.PathProofs C17.IdModel C17.IdProofs C17.UrlFullSrc.
 
 (* joining a safe relative path onto a non-empty root appends its components, none of them `..` *)
 Theorem c17_path_join_components : forall root rel, root <> [] -> safe_rel rel ->
@@ -584,6 +584,42 @@ Example c17_nonvacuous_property :
     cache_rel l = [84;46;80;68;66;47;51;67;48;68;50;49;69;52;49;47;107;46;100;108;108] /\   (* T.PDB/3C0D21E41/k.dll *)
     server_rel l = [107;46;100;108;108;47;53;97;47;107;46;100;108;108].                    (* k.dll/5a/k.dll *)
 Proof. eexists. eexists. split; [vm_compute; reflexivity|]. split; [vm_compute; reflexivity|]. split; reflexivity. Qed.
+
+(* Round 5, second pass — the URL clause of the headline on the FULL model of Url::join (all branches of its dispatch,
+   C17/UrlFull.v) and the generated encoder: for every special base scheme and every base path the request goes to the
+   configured scheme and authority (JSame), below the base directory; also the mozilla-CAB variant *)
+Theorem c17_property_url_full : forall code_file debug_file d raw_code_id kind l base_scheme,
+  bytes code_file -> opt_bytes debug_file ->
+  g_lookup (module_of_ids code_file debug_file d raw_code_id) kind = Some l ->
+  (forall base_path, exists r, g_request_target base_scheme base_path (server_rel l) = JSame r /\
+                               is_prefix (base_dir base_path) r = true) /\
+  (forall l', g_moz_lookup l = Ret l' ->
+     forall base_path, exists r, g_request_target base_scheme base_path (server_rel l') = JSame r /\
+                                 is_prefix (base_dir base_path) r = true).
+Proof. exact full_property_url. Qed.
+Print Assumptions c17_property_url_full.
+
+Theorem c17_property_url_full_code_info : forall code_file debug_file d raw_code_id p base_scheme base_path,
+  bytes code_file -> opt_bytes debug_file ->
+  g_code_info_breakpad_sym_lookup (module_of_ids code_file debug_file d raw_code_id) = Some p ->
+  exists r, g_request_target base_scheme base_path p = JSame r /\ is_prefix (base_dir base_path) r = true.
+Proof. exact full_property_url_code_info. Qed.
+Print Assumptions c17_property_url_full_code_info.
+
+(* ALL byte strings through the GENERATED encoder (no hypothesis): never another scheme; another host exactly for "//" *)
+Theorem c17_src_url_resolve_all_strings : forall base_scheme base_path p, bytes p ->
+  match g_request_target base_scheme base_path p with
+  | JOpaque _ _ => False
+  | JAuthority s _ => s = base_scheme /\ starts_two_slashes p = true
+  | JSame _ => starts_two_slashes p = false
+  end.
+Proof. exact g_resolve_all_strings. Qed.
+Print Assumptions c17_src_url_resolve_all_strings.
+
+Example c17_nonvacuous_url_full :
+  g_request_target s_https [47;114;47;105] [107;46;100;108;108;47;53;97;47;107;46;100;108;108]
+    = JSame [47;114;47;107;46;100;108;108;47;53;97;47;107;46;100;108;108].                    (* k.dll/5a/k.dll on https /r/i -> /r/k.dll/5a/k.dll *)
+Proof. vm_compute. reflexivity. Qed.
 
 (* Windows rules at component level (model-only: std's Windows path code cannot be executed on this machine): pushing a
    safe relative path onto a root that is not a bare drive `X:` keeps the root's components in front and adds no `..` *)
